@@ -129,7 +129,9 @@ fn real_main(mut args: Vec<String>) -> i32 {
                     ent.0 += 1;
                     None
                 };
+                sched::SLEEPY_TIMERS.store(sc.name.contains("live timer"), std::sync::atomic::Ordering::Relaxed);
                 let r = sched::explore(&sc.lines, bound, props::c14::HORIZON, &oracle, 200_000);
+                sched::SLEEPY_TIMERS.store(false, std::sync::atomic::Ordering::Relaxed);
                 out!("executions {}", r.executions);
                 for (k, (n, v)) in seen.lock().unwrap().iter() {
                     out!("  x{} {} => {:?}", n, k, v);
